@@ -879,7 +879,23 @@ func c18Preconditions(c *Ctx) {
 		}
 		r := unparen(ret.Results[0])
 		if be, ok := r.(*ast.BinaryExpr); ok && be.Op == token.NEQ {
-			continue // the '*' form, checked above
+			// only the '*' form: etag != "" where the header byte compared equal to '*'
+			star := false
+			if t := eff.term(be.X); t != nil && t.String() == TVar(eparams[0]).String() {
+				if s, isC := constString(einfo, be.Y); isC && s == "" {
+					if st, _ := eff.At(ret); st != nil {
+						for _, f := range st.Facts() {
+							if f.Op == "eq" && f.Pos && strings.Contains(f.key, "42") {
+								star = true
+							}
+						}
+					}
+				}
+			}
+			if !star {
+				okDefault = false
+			}
+			continue
 		}
 		tv := einfo.Types[r]
 		if tv.Value == nil {
